@@ -269,6 +269,12 @@ int main(int argc, char **argv)
 		case 'Z': {
 			int guard = 0;
 			armed = 0;
+			if (verif_irq_masked || verif_fiq_masked) {
+				/* the main context has returned from sercomm with interrupts still masked: on the phone no UART
+				 * interrupt would ever be served again */
+				printf("STUCK %d %d\n", verif_irq_masked, verif_fiq_masked);
+				verif_irq_masked = verif_fiq_masked = 0;
+			}
 			/* the line goes quiet: serve what is pending (echoed messages re-enable the Tx interrupt) */
 			while ((tx_irq_enabled || in_pos < in_n) && guard++ < 100000) {
 				isr('R', 64);
